@@ -3,7 +3,7 @@ Lemmas/EncodeData.lean — the data directives (FCB FDB RMB FCC and the directiv
 what `translatePseudo` builds for each mnemonic, what `emitValue` reads back from the values it
 builds, and what the multi-value parser (`multi`, `elemHex`) prints for decimal literals (T4).
 -/
-import CoCoVerif.Lemmas.EncodeHex
+import CoCoVerif.Lemmas.EncodeFit
 import CoCoVerif.Lemmas.EncodeSplit
 
 namespace CoCo.Asm
@@ -22,69 +22,91 @@ theorem int_byteLen_of_ne_pyNone (v : Value) (h : v ≠ .pyNone) :
     ∃ i bl, v.int? = some i ∧ v.byteLen? = some bl := by
   cases v <;> simp_all [Value.int?, Value.byteLen?, Value.hexLen?, Value.hex?]
 
-/-! ### `translatePseudo`, mnemonic by mnemonic -/
+/-! ### `translatePseudo`, mnemonic by mnemonic
 
-theorem translatePseudo_pyNone (o : Operand) (row : InstrRow) (h : o.value = .pyNone) :
+Since the repair of the data directives a single FCB / FDB value is handed on AS IT IS (size 1 / 2) and rendered at
+the directive's width by `fitWidth` after the address pass; RMB and ORG insist on a non-negative number. -/
+
+/-- Python `None` (a symbol without a value) under FCB FDB RMB ORG: an attribute error -/
+theorem translatePseudo_pyNone (o : Operand) (row : InstrRow) (h : o.value = .pyNone)
+    (hm : row.mnemonic = "FCB" ∨ row.mnemonic = "FDB" ∨ row.mnemonic = "RMB" ∨ row.mnemonic = "ORG") :
     translatePseudo o row = .error .other := by
-  simp [translatePseudo, h, Value.int?]
-  rfl
+  rcases hm with hm | hm | hm | hm <;> simp [translatePseudo, h, hm] <;> rfl
 
-theorem translatePseudo_FCB_single {o : Operand} {row : InstrRow} {i bl : Nat} (hm : row.mnemonic = "FCB")
-    (hi : o.value.int? = some i) (hb : o.value.byteLen? = some bl) (hnm : o.value.isMultiByte = false)
-    (hlt : i < 65536) :
-    translatePseudo o row = .ok { additional := .numeric i (some 2) .extended false, size := 1, maxSize := 1 } := by
-  simp [translatePseudo, hm, hi, hb, hnm, numericOfInt_hint 2 hlt]
-  rfl
+theorem translatePseudo_FCB_single {o : Operand} {row : InstrRow} (hm : row.mnemonic = "FCB")
+    (hv : o.value ≠ .pyNone) (hnm : o.value.isMultiByte = false) :
+    translatePseudo o row = .ok { additional := o.value, size := 1, maxSize := 1 } := by
+  cases hval : o.value <;> simp_all [translatePseudo, Value.isMultiByte] <;> rfl
 
-theorem translatePseudo_FCB_multi {o : Operand} {row : InstrRow} {i bl : Nat} (hm : row.mnemonic = "FCB")
-    (hi : o.value.int? = some i) (hb : o.value.byteLen? = some bl) (hnm : o.value.isMultiByte = true) :
+theorem translatePseudo_FCB_multi {o : Operand} {row : InstrRow} {bl : Nat} (hm : row.mnemonic = "FCB")
+    (hb : o.value.byteLen? = some bl) (hnm : o.value.isMultiByte = true) :
     translatePseudo o row = .ok { additional := o.value, size := bl, maxSize := bl } := by
-  simp [translatePseudo, hm, hi, hb, hnm]
-  rfl
+  cases hval : o.value <;> simp_all [translatePseudo, Value.isMultiByte] <;> rfl
 
-theorem translatePseudo_FDB_single {o : Operand} {row : InstrRow} {i bl : Nat} (hm : row.mnemonic = "FDB")
-    (hi : o.value.int? = some i) (hb : o.value.byteLen? = some bl) (hnm : o.value.isMultiWord = false)
-    (hlt : i < 65536) :
-    translatePseudo o row = .ok { additional := .numeric i (some 4) .extended false, size := 2, maxSize := 2 } := by
-  simp [translatePseudo, hm, hi, hb, hnm, numericOfInt_hint 4 hlt]
-  rfl
+theorem translatePseudo_FDB_single {o : Operand} {row : InstrRow} (hm : row.mnemonic = "FDB")
+    (hv : o.value ≠ .pyNone) (hnm : o.value.isMultiWord = false) :
+    translatePseudo o row = .ok { additional := o.value, size := 2, maxSize := 2 } := by
+  cases hval : o.value <;> simp_all [translatePseudo, Value.isMultiWord] <;> rfl
 
-theorem translatePseudo_FDB_multi {o : Operand} {row : InstrRow} {i bl : Nat} (hm : row.mnemonic = "FDB")
-    (hi : o.value.int? = some i) (hb : o.value.byteLen? = some bl) (hnm : o.value.isMultiWord = true) :
+theorem translatePseudo_FDB_multi {o : Operand} {row : InstrRow} {bl : Nat} (hm : row.mnemonic = "FDB")
+    (hb : o.value.byteLen? = some bl) (hnm : o.value.isMultiWord = true) :
     translatePseudo o row = .ok { additional := o.value, size := bl, maxSize := bl } := by
-  simp [translatePseudo, hm, hi, hb, hnm]
-  rfl
+  cases hval : o.value <;> simp_all [translatePseudo, Value.isMultiWord] <;> rfl
 
 /-- `NumericValue(0, size_hint=w)` -/
 theorem numericOfInt_zero_hint (w : Nat) :
     numericOfInt 0 (some w) .none = .ok (.numeric 0 (some w) .extended false) := by
   simpa using numericOfInt_hint (v := 0) w (by omega)
 
-theorem translatePseudo_RMB {o : Operand} {row : InstrRow} {i bl : Nat} (hm : row.mnemonic = "RMB")
-    (hi : o.value.int? = some i) (hb : o.value.byteLen? = some bl) :
-    translatePseudo o row = .ok { additional := .numeric 0 (some (i * 2)) .extended false, size := i, maxSize := i } := by
-  simp [translatePseudo, hm, hi, hb, numericOfInt_zero_hint]
+theorem translatePseudo_RMB {o : Operand} {row : InstrRow} {n : Nat} {h : Option Nat} {m : Mode}
+    (hm : row.mnemonic = "RMB") (hv : o.value = .numeric n h m false) :
+    translatePseudo o row = .ok { additional := .numeric 0 (some (n * 2)) .extended false, size := n, maxSize := n } := by
+  simp [translatePseudo, hm, hv, Value.isNumeric, Value.isNegative, Value.int?, numericOfInt_zero_hint]
   rfl
 
-theorem translatePseudo_ORG {o : Operand} {row : InstrRow} {i bl : Nat} (hm : row.mnemonic = "ORG")
-    (hi : o.value.int? = some i) (hb : o.value.byteLen? = some bl) :
+/-- `RMB -n`: "not a number of bytes to reserve" -/
+theorem translatePseudo_RMB_neg {o : Operand} {row : InstrRow} {n : Nat} {h : Option Nat} {m : Mode}
+    (hm : row.mnemonic = "RMB") (hv : o.value = .numeric n h m true) :
+    translatePseudo o row = .error .operandType := by
+  simp [translatePseudo, hm, hv, Value.isNumeric, Value.isNegative]
+  rfl
+
+/-- RMB of anything that is not a number (an unresolved symbol, a string, a label …) -/
+theorem translatePseudo_RMB_nonNumeric {o : Operand} {row : InstrRow} (hm : row.mnemonic = "RMB")
+    (hv : o.value ≠ .pyNone) (hn : o.value.isNumeric = false) :
+    translatePseudo o row = .error .operandType := by
+  cases hval : o.value <;> simp_all [translatePseudo, Value.isNumeric] <;> rfl
+
+theorem translatePseudo_ORG {o : Operand} {row : InstrRow} {n : Nat} {h : Option Nat} {m : Mode}
+    (hm : row.mnemonic = "ORG") (hv : o.value = .numeric n h m false) :
     translatePseudo o row = .ok { address := o.value } := by
-  simp [translatePseudo, hm, hi, hb]
+  simp [translatePseudo, hm, hv, Value.isNumeric, Value.isNegative]
   rfl
 
-theorem translatePseudo_FCC {o : Operand} {row : InstrRow} {i bl : Nat} (hm : row.mnemonic = "FCC")
-    (hi : o.value.int? = some i) (hb : o.value.byteLen? = some bl) :
+/-- `ORG -n`: "not an address" -/
+theorem translatePseudo_ORG_neg {o : Operand} {row : InstrRow} {n : Nat} {h : Option Nat} {m : Mode}
+    (hm : row.mnemonic = "ORG") (hv : o.value = .numeric n h m true) :
+    translatePseudo o row = .error .operandType := by
+  simp [translatePseudo, hm, hv, Value.isNumeric, Value.isNegative]
+  rfl
+
+theorem translatePseudo_ORG_nonNumeric {o : Operand} {row : InstrRow} (hm : row.mnemonic = "ORG")
+    (hv : o.value ≠ .pyNone) (hn : o.value.isNumeric = false) :
+    translatePseudo o row = .error .operandType := by
+  cases hval : o.value <;> simp_all [translatePseudo, Value.isNumeric] <;> rfl
+
+theorem translatePseudo_FCC {o : Operand} {row : InstrRow} {bl : Nat} (hm : row.mnemonic = "FCC")
+    (hb : o.value.byteLen? = some bl) :
     translatePseudo o row = .ok { additional := o.value, size := bl, maxSize := bl } := by
-  simp [translatePseudo, hm, hi, hb]
+  simp [translatePseudo, hm, hb]
   rfl
 
-/-- every other pseudo mnemonic (EQU SETDP NAM END INCLUDE SET): the empty package -/
-theorem translatePseudo_other {o : Operand} {row : InstrRow} {i bl : Nat}
+/-- every other pseudo mnemonic (EQU SETDP NAM END INCLUDE SET): the empty package, whatever the value -/
+theorem translatePseudo_other {o : Operand} {row : InstrRow}
     (h1 : row.mnemonic ≠ "FCB") (h2 : row.mnemonic ≠ "FDB") (h3 : row.mnemonic ≠ "RMB")
-    (h4 : row.mnemonic ≠ "ORG") (h5 : row.mnemonic ≠ "FCC")
-    (hi : o.value.int? = some i) (hb : o.value.byteLen? = some bl) :
+    (h4 : row.mnemonic ≠ "ORG") (h5 : row.mnemonic ≠ "FCC") :
     translatePseudo o row = .ok {} := by
-  simp [translatePseudo, h1, h2, h3, h4, h5, hi, hb]
+  simp [translatePseudo, h1, h2, h3, h4, h5]
   rfl
 
 /-! ### multi-value lists -/
@@ -248,78 +270,100 @@ theorem numericOfStr_dec {x : Str} (hx : IsDecLit x) (sizeHint : Option Nat) (mo
       · have hv' : ¬ parseBase 10 (a :: t) > 65535 := by omega
         simp [hd, hv']
 
-theorem numHex_size (i : Nat) (h : Option Nat) (neg : Bool) {w : Nat} (hw : w ≠ 0) :
-    numHex i h neg w = fmtHex w (getNegative i neg) := by
-  simp [numHex, hw]
+/-- one element of a multi-value list: a literal that fits the field is printed as the field's two's complement -/
+theorem elemHex_byte {x : Str} {i : Nat} {h : Option Nat} {m : Mode} {neg : Bool}
+    (hn : numericOfStr x none .none = .ok (.numeric i h m neg)) (hf : fitsByte i neg = true) :
+    elemHex 2 x = .ok (byteHex (byteField i neg)) := by
+  simp [elemHex, hn, fitNum_byte hf, Value.hex?, numHex, getNegative, fmtHex_byte (byteField_lt hf)]
 
-/-- one element of a multi-value list: a decimal literal is printed with the field width -/
-theorem elemHex_dec {x : Str} (hx : IsDecLit x) {w : Nat} (hw : w ≠ 0) (hv : parseBase 10 x < 65536) :
-    elemHex w x = .ok (fmtHex w (parseBase 10 x)) := by
-  simp [elemHex, numericOfStr_dec hx none .none hv, numHex_size _ _ _ hw, getNegative]
+theorem elemHex_word {x : Str} {i : Nat} {h : Option Nat} {m : Mode} {neg : Bool}
+    (hn : numericOfStr x none .none = .ok (.numeric i h m neg)) (hf : fitsWord i neg = true) :
+    elemHex 4 x = .ok (byteHex (wordField i neg / 256) ++ byteHex (wordField i neg % 256)) := by
+  simp [elemHex, hn, fitNum_word hf, Value.hex?, numHex, getNegative, fmtHex_word (wordField_lt hf)]
 
-theorem mapM_elemHex_dec {w : Nat} (hw : w ≠ 0) (lits : List Str)
-    (hl : ∀ x ∈ lits, IsDecLit x ∧ parseBase 10 x < 65536) :
-    lits.mapM (elemHex w) = .ok (lits.map (fun x => fmtHex w (parseBase 10 x))) := by
-  induction lits with
-  | nil => rfl
-  | cons x t ih =>
-    have hx := hl x (by simp)
-    rw [List.mapM_cons, elemHex_dec hx.1 hw hx.2, ih (fun y hy => hl y (by simp [hy]))]
-    rfl
+/-- an element that does not fit the field is refused ("does not fit") -/
+theorem elemHex_byte_err {x : Str} {i : Nat} {h : Option Nat} {m : Mode} {neg : Bool}
+    (hn : numericOfStr x none .none = .ok (.numeric i h m neg)) (hf : fitsByte i neg = false) :
+    elemHex 2 x = .error .valueType := by
+  simp [elemHex, hn, fitNum_byte_err hf]
+
+theorem elemHex_word_err {x : Str} {i : Nat} {h : Option Nat} {m : Mode} {neg : Bool}
+    (hn : numericOfStr x none .none = .ok (.numeric i h m neg)) (hf : fitsWord i neg = false) :
+    elemHex 4 x = .error .valueType := by
+  simp [elemHex, hn, fitNum_word_err hf]
+
+/-- an element that is not a number at all (a symbol, an expression): refused — the remnant of finding C2 -/
+theorem elemHex_nonNumeric {w : Nat} {x : Str} {e : Exn} (hn : numericOfStr x none .none = .error e) :
+    elemHex w x = .error e := by
+  simp [elemHex, hn]
 
 theorem decLit_no_comma {x : Str} (hx : IsDecLit x) : ',' ∉ x := by
   intro hm
   have := List.all_eq_true.mp hx.2 _ hm
   exact (isDigit_ne this).2.2.2.2 rfl
 
-/-- `multi w "d1,d2,...,dn"` (at least two decimal literals): each literal printed with width `w` -/
-theorem multi_dec {w : Nat} (hw : w ≠ 0) (lits : List Str) (h2 : 2 ≤ lits.length)
-    (hl : ∀ x ∈ lits, IsDecLit x ∧ parseBase 10 x < 65536)
-    (hr : (w == 2 && (lits.map (fun x => fmtHex w (parseBase 10 x))).any (fun h => decide (h.length > 2))) = false) :
-    multi w (joinWith ',' lits) = .ok (lits.map (fun x => fmtHex w (parseBase 10 x))) := by
+/-- `multi w "e1,e2,...,en"` (at least two nonempty comma-free elements): element by element -/
+theorem multi_of_elems {w : Nat} (lits : List Str) (h2 : 2 ≤ lits.length)
+    (hl : ∀ x ∈ lits, x ≠ [] ∧ ',' ∉ x) : multi w (joinWith ',' lits) = lits.mapM (elemHex w) := by
   obtain ⟨a, b, t, rfl⟩ : ∃ a b t, lits = a :: b :: t := by
     match lits, h2 with
     | a :: b :: t, _ => exact ⟨a, b, t, rfl⟩
   have hc := contains_joinWith ',' a b t
-  have hs := splitOn_joinWith ',' (a :: b :: t) (by simp) (fun p hp => decLit_no_comma (hl p hp).1)
+  have hs := splitOn_joinWith ',' (a :: b :: t) (by simp) (fun p hp => (hl p hp).2)
   have hf : (a :: b :: t).filter (· != []) = a :: b :: t := by
     apply List.filter_eq_self.mpr
     intro p hp
-    have := (hl p hp).1.1
+    have := (hl p hp).1
     simpa using this
   unfold multi
-  rw [hc, hs, hf, mapM_elemHex_dec hw _ hl]
-  simp only [Bool.not_true, Bool.false_eq_true, if_false]
-  rw [hr]
+  rw [hc, hs, hf]
   simp
+
+theorem mapM_ok_of_forall {α β} (f : α → R β) (g : α → β) (l : List α) (h : ∀ x ∈ l, f x = .ok (g x)) :
+    l.mapM f = .ok (l.map g) := by
+  induction l with
+  | nil => rfl
+  | cons x t ih =>
+    rw [List.mapM_cons, h x (by simp), ih (fun y hy => h y (by simp [hy]))]
+    rfl
+
+theorem mapM_error_of_mem {α β} (f : α → R β) (l : List α) {x : α} {e : Exn} (hx : x ∈ l) (he : f x = .error e) :
+    ∃ e', l.mapM f = .error e' := by
+  induction l with
+  | nil => cases hx
+  | cons a t ih =>
+    rw [List.mapM_cons]
+    cases ha : f a with
+    | error e1 => exact ⟨e1, rfl⟩
+    | ok v =>
+      rcases List.mem_cons.mp hx with rfl | hm
+      · rw [he] at ha; cases ha
+      · obtain ⟨e', he'⟩ := ih hm
+        exact ⟨e', by simp [he', bind, Except.bind]⟩
 
 theorem multi2_dec (lits : List Str) (h2 : 2 ≤ lits.length)
     (hl : ∀ x ∈ lits, IsDecLit x ∧ parseBase 10 x < 256) :
     multi 2 (joinWith ',' lits) = .ok ((lits.map (parseBase 10)).map byteHex) := by
-  rw [multi_dec (by decide) lits h2 (fun x hx => ⟨(hl x hx).1, by have := (hl x hx).2; omega⟩)
-    (by
-      simp only [beq_self_eq_true, Bool.true_and]
-      apply Bool.eq_false_iff.mpr
-      intro hany
-      obtain ⟨h, hh, hlen⟩ := List.any_eq_true.mp hany
-      obtain ⟨x, hx, rfl⟩ := List.mem_map.mp hh
-      rw [fmtHex_byte (hl x hx).2] at hlen
-      simp [byteHex] at hlen)]
-  simp only [List.map_map]
-  congr 1
-  apply List.map_congr_left
-  intro x hx
-  exact fmtHex_byte (hl x hx).2
+  rw [multi_of_elems lits h2 (fun x hx => ⟨(hl x hx).1.1, decLit_no_comma (hl x hx).1⟩),
+    mapM_ok_of_forall (elemHex 2) (fun x => byteHex (parseBase 10 x)) lits ?_, List.map_map]
+  · rfl
+  · intro x hx
+    have hv := (hl x hx).2
+    have hn := numericOfStr_dec (hl x hx).1 none .none (by omega)
+    have := elemHex_byte hn (by simp [fitsByte]; omega)
+    simpa [byteField] using this
 
 theorem multi4_dec (lits : List Str) (h2 : 2 ≤ lits.length)
     (hl : ∀ x ∈ lits, IsDecLit x ∧ parseBase 10 x < 65536) :
     multi 4 (joinWith ',' lits) = .ok ((lits.map (parseBase 10)).map wordHex) := by
-  rw [multi_dec (by decide) lits h2 hl (by simp)]
-  simp only [List.map_map]
-  congr 1
-  apply List.map_congr_left
-  intro x hx
-  exact fmtHex_word (hl x hx).2
+  rw [multi_of_elems lits h2 (fun x hx => ⟨(hl x hx).1.1, decLit_no_comma (hl x hx).1⟩),
+    mapM_ok_of_forall (elemHex 4) (fun x => wordHex (parseBase 10 x)) lits ?_, List.map_map]
+  · rfl
+  · intro x hx
+    have hv := (hl x hx).2
+    have hn := numericOfStr_dec (hl x hx).1 none .none hv
+    have := elemHex_word hn (by simp [fitsWord]; omega)
+    simpa [wordField, wordHex] using this
 
 /-! ### `createOperand` for a multi-value line -/
 
@@ -451,6 +495,168 @@ theorem createOperand_pseudo_neg {row : InstrRow} (hp : row.isPseudo = true) (hd
   have hcv := createV_neg hx hv
   simp [createOperand, hp, hd, hinc, hsd, h16, hcomma, hcv]
 
+/-! ### signed decimal list elements -/
+
+/-- a decimal literal with an optional minus sign -/
+def sdec (e : Bool × Str) : Str := if e.1 then '-' :: e.2 else e.2
+
+theorem numericOfStr_dec_big {x : Str} (hx : IsDecLit x) (sizeHint : Option Nat) (mode : Mode)
+    (hv : 65536 ≤ parseBase 10 x) : numericOfStr x sizeHint mode = .error .valueType := by
+  obtain ⟨hne, hd⟩ := hx
+  cases x with
+  | nil => exact absurd rfl hne
+  | cons a t =>
+    have ha : isDigit a = true := by simp [List.all_cons] at hd; exact hd.1
+    obtain ⟨h1, h2, h3, h4, _⟩ := isDigit_ne ha
+    unfold numericOfStr
+    simp only []
+    split
+    · rename_i v hc
+      split at hc
+      · rename_i q c heq
+        have : a = q := by injection heq
+        subst this
+        simp [h1] at hc
+      · simp at hc
+    · split
+      · rename_i heq; injection heq with e _; exact absurd e h2
+      · rename_i heq; injection heq with e _; exact absurd e h3
+      · rename_i heq; injection heq with e _; exact absurd e h4
+      · have hv' : parseBase 10 (a :: t) > 65535 := by omega
+        simp [hd, hv']
+
+theorem numericOfStr_neg_big {ds : Str} (hx : IsDecLit ds) (sizeHint : Option Nat) (mode : Mode)
+    (hv : 32768 < parseBase 10 ds) : numericOfStr ('-' :: ds) sizeHint mode = .error .valueType := by
+  obtain ⟨hne, hd⟩ := hx
+  have hap : ('-' == apos) = false := by decide
+  unfold numericOfStr
+  simp only []
+  split
+  · rename_i v hc
+    split at hc
+    · rename_i q c heq
+      have : '-' = q := by injection heq
+      subst this
+      simp [hap] at hc
+    · simp at hc
+  · simp [hne, hd, hv]
+
+theorem sdec_ne_nil {e : Bool × Str} (hx : IsDecLit e.2) : sdec e ≠ [] := by
+  unfold sdec; split
+  · simp
+  · exact hx.1
+
+theorem sdec_no_comma {e : Bool × Str} (hx : IsDecLit e.2) : ',' ∉ sdec e := by
+  have := decLit_no_comma hx
+  unfold sdec; split
+  · simpa using this
+  · exact this
+
+/-- one signed decimal element of an FCB list: the two's complement byte if it fits −128..255, else refused -/
+theorem elemHex2_sdec {e : Bool × Str} (hx : IsDecLit e.2) :
+    elemHex 2 (sdec e) = if fitsByte (parseBase 10 e.2) e.1 then .ok (byteHex (byteField (parseBase 10 e.2) e.1))
+                          else .error .valueType := by
+  obtain ⟨neg, ds⟩ := e
+  dsimp only at hx ⊢
+  cases neg
+  · simp only [sdec, Bool.false_eq_true, if_false]
+    by_cases hv : parseBase 10 ds < 65536
+    · have hn := numericOfStr_dec hx none .none hv
+      cases hf : fitsByte (parseBase 10 ds) false
+      · simp only [Bool.false_eq_true, if_false]; exact elemHex_byte_err hn hf
+      · simp only [if_true]; exact elemHex_byte hn hf
+    · have hf : fitsByte (parseBase 10 ds) false = false := by simp [fitsByte]; omega
+      rw [hf, elemHex_nonNumeric (numericOfStr_dec_big hx none .none (by omega))]
+      rfl
+  · simp only [sdec, if_true]
+    by_cases hv : parseBase 10 ds ≤ 32768
+    · have hn := numericOfStr_neg hx none .none hv
+      cases hf : fitsByte (parseBase 10 ds) true
+      · simp only [Bool.false_eq_true, if_false]; exact elemHex_byte_err hn hf
+      · simp only [if_true]; exact elemHex_byte hn hf
+    · have hf : fitsByte (parseBase 10 ds) true = false := by simp [fitsByte]; omega
+      rw [hf, elemHex_nonNumeric (numericOfStr_neg_big hx none .none (by omega))]
+      rfl
+
+/-- one signed decimal element of an FDB list -/
+theorem elemHex4_sdec {e : Bool × Str} (hx : IsDecLit e.2) :
+    elemHex 4 (sdec e) = if fitsWord (parseBase 10 e.2) e.1 then .ok (wordHex (wordField (parseBase 10 e.2) e.1))
+                          else .error .valueType := by
+  obtain ⟨neg, ds⟩ := e
+  dsimp only at hx ⊢
+  cases neg
+  · simp only [sdec, Bool.false_eq_true, if_false]
+    by_cases hv : parseBase 10 ds < 65536
+    · have hn := numericOfStr_dec hx none .none hv
+      have hf : fitsWord (parseBase 10 ds) false = true := by simp [fitsWord]; omega
+      rw [hf]; simp only [if_true, wordHex]; exact elemHex_word hn hf
+    · have hf : fitsWord (parseBase 10 ds) false = false := by simp [fitsWord]; omega
+      rw [hf, elemHex_nonNumeric (numericOfStr_dec_big hx none .none (by omega))]
+      rfl
+  · simp only [sdec, if_true]
+    by_cases hv : parseBase 10 ds ≤ 32768
+    · have hn := numericOfStr_neg hx none .none hv
+      have hf : fitsWord (parseBase 10 ds) true = true := by simp [fitsWord]; omega
+      rw [hf]; simp only [if_true, wordHex]; exact elemHex_word hn hf
+    · have hf : fitsWord (parseBase 10 ds) true = false := by simp [fitsWord]; omega
+      rw [hf, elemHex_nonNumeric (numericOfStr_neg_big hx none .none (by omega))]
+      rfl
+
+/-- `FCB e1,...,en` with signed decimal elements that all fit: the two's complement bytes -/
+theorem multi2_sdec (lits : List (Bool × Str)) (h2 : 2 ≤ lits.length)
+    (hl : ∀ e ∈ lits, IsDecLit e.2 ∧ fitsByte (parseBase 10 e.2) e.1 = true) :
+    multi 2 (joinWith ',' (lits.map sdec)) = .ok ((lits.map (fun e => byteField (parseBase 10 e.2) e.1)).map byteHex) := by
+  rw [multi_of_elems (lits.map sdec) (by simpa using h2) ?_, List.mapM_map,
+    mapM_ok_of_forall (elemHex 2 ∘ sdec) (fun e => byteHex (byteField (parseBase 10 e.2) e.1)) lits ?_, List.map_map]
+  · rfl
+  · intro e he
+    simp only [Function.comp, elemHex2_sdec (hl e he).1, (hl e he).2, if_true]
+  · intro x hx
+    obtain ⟨e, he, rfl⟩ := List.mem_map.mp hx
+    exact ⟨sdec_ne_nil (hl e he).1, sdec_no_comma (hl e he).1⟩
+
+/-- ... and as soon as one element does not fit the whole line is refused -/
+theorem multi2_sdec_reject (lits : List (Bool × Str)) (h2 : 2 ≤ lits.length) (hl : ∀ e ∈ lits, IsDecLit e.2)
+    {e : Bool × Str} (he : e ∈ lits) (hf : fitsByte (parseBase 10 e.2) e.1 = false) :
+    ∃ err, multi 2 (joinWith ',' (lits.map sdec)) = .error err := by
+  rw [multi_of_elems (lits.map sdec) (by simpa using h2)
+    (by intro x hx; obtain ⟨e', he', rfl⟩ := List.mem_map.mp hx; exact ⟨sdec_ne_nil (hl e' he'), sdec_no_comma (hl e' he')⟩)]
+  exact mapM_error_of_mem (elemHex 2) (lits.map sdec) (x := sdec e) (e := .valueType) (List.mem_map.mpr ⟨e, he, rfl⟩)
+    (by rw [elemHex2_sdec (hl e he), hf]; rfl)
+
+theorem multi4_sdec (lits : List (Bool × Str)) (h2 : 2 ≤ lits.length)
+    (hl : ∀ e ∈ lits, IsDecLit e.2 ∧ fitsWord (parseBase 10 e.2) e.1 = true) :
+    multi 4 (joinWith ',' (lits.map sdec)) = .ok ((lits.map (fun e => wordField (parseBase 10 e.2) e.1)).map wordHex) := by
+  rw [multi_of_elems (lits.map sdec) (by simpa using h2) ?_, List.mapM_map,
+    mapM_ok_of_forall (elemHex 4 ∘ sdec) (fun e => wordHex (wordField (parseBase 10 e.2) e.1)) lits ?_, List.map_map]
+  · rfl
+  · intro e he
+    simp only [Function.comp, elemHex4_sdec (hl e he).1, (hl e he).2, if_true]
+  · intro x hx
+    obtain ⟨e, he, rfl⟩ := List.mem_map.mp hx
+    exact ⟨sdec_ne_nil (hl e he).1, sdec_no_comma (hl e he).1⟩
+
+theorem multi4_sdec_reject (lits : List (Bool × Str)) (h2 : 2 ≤ lits.length) (hl : ∀ e ∈ lits, IsDecLit e.2)
+    {e : Bool × Str} (he : e ∈ lits) (hf : fitsWord (parseBase 10 e.2) e.1 = false) :
+    ∃ err, multi 4 (joinWith ',' (lits.map sdec)) = .error err := by
+  rw [multi_of_elems (lits.map sdec) (by simpa using h2)
+    (by intro x hx; obtain ⟨e', he', rfl⟩ := List.mem_map.mp hx; exact ⟨sdec_ne_nil (hl e' he'), sdec_no_comma (hl e' he')⟩)]
+  exact mapM_error_of_mem (elemHex 4) (lits.map sdec) (x := sdec e) (e := .valueType) (List.mem_map.mpr ⟨e, he, rfl⟩)
+    (by rw [elemHex4_sdec (hl e he), hf]; rfl)
+
+/-- a refused list refuses the line: `PseudoOperand.__init__` raises -/
+theorem createOperand_multiByte_reject {row : InstrRow} (hp : row.isPseudo = true)
+    (hmb : row.isMultiByte = true) {s : Str} (hc : s.contains ',' = true) {e : Exn}
+    (hm : multi 2 s = .error e) : createOperand s row = .error e := by
+  have hc' : ',' ∈ s := by simpa using hc
+  simp [createOperand, hp, hmb, hc', hm, Except.map]
+
+theorem createOperand_multiWord_reject {row : InstrRow} (hp : row.isPseudo = true)
+    (hmb : row.isMultiByte = false) (hmw : row.isMultiWord = true) {s : Str} (hc : s.contains ',' = true) {e : Exn}
+    (hm : multi 4 s = .error e) : createOperand s row = .error e := by
+  have hc' : ',' ∈ s := by simpa using hc
+  simp [createOperand, hp, hmb, hmw, hc', hm, Except.map]
+
 /-! ### FCC: a delimited string -/
 
 /-- `FCC dbodyd`: whatever the delimiter character `d`, the value is the text between the delimiters -/
@@ -463,21 +669,5 @@ theorem createOperand_fcc {row : InstrRow} (hp : row.isPseudo = true) (hd : row.
     have : d :: (body ++ [d]) = (d :: body) ++ [d] := rfl
     rw [this, List.getLast?_append]; simp
   simp [createOperand, hp, hd, hmb, hmw, hinc, hsd, createV, create, hl]
-
-/-! ### values that are refused -/
-
-theorem translatePseudo_FDB_reject {o : Operand} {row : InstrRow} {i bl : Nat} (hm : row.mnemonic = "FDB")
-    (hi : o.value.int? = some i) (hb : o.value.byteLen? = some bl) (hnm : o.value.isMultiWord = false)
-    (hge : 65536 ≤ i) : translatePseudo o row = .error .valueType := by
-  have h : (i : Int) > 65535 := by omega
-  simp [translatePseudo, hm, hi, hb, hnm, numericOfInt, h]
-  rfl
-
-theorem translatePseudo_FCB_reject {o : Operand} {row : InstrRow} {i bl : Nat} (hm : row.mnemonic = "FCB")
-    (hi : o.value.int? = some i) (hb : o.value.byteLen? = some bl) (hnm : o.value.isMultiByte = false)
-    (hge : 65536 ≤ i) : translatePseudo o row = .error .valueType := by
-  have h : (i : Int) > 65535 := by omega
-  simp [translatePseudo, hm, hi, hb, hnm, numericOfInt, h]
-  rfl
 
 end CoCo.Asm
